@@ -6,6 +6,7 @@
    SgGraphAdapter view plus the dtype signature of the spatial-graph object (RSg). *)
 From Geff Require Export Base Dtype Vlen Tree Validate Write Read Dicts Backends.
 From Geff Require Export BackendsMd.
+From Geff Require Names.
 Open Scope list_scope.
 
 Inductive writer :=
@@ -18,7 +19,10 @@ Inductive writer :=
 | WNxMd (directed : bool) (g : dgraph) (md : option smeta) (axes : option (list (string * Z)))
 | WRxMd (directed : bool) (g : dgraph) (idmap : option (list (Z * Z))) (md : option smeta) (axes : option (list (string * Z))).
 Inductive reader := RMem | RNx | RRx | RSg (pos : string).
-Inductive input := ICase (w : writer) (r : reader) (mdtok axtok : Z).
+Inductive input := ICase (w : writer) (r : reader) (mdtok axtok : Z)
+(* a property NAME: is it usable under zarr format 2 / 3 (Names.name_ok_fmt)?  observed: a two-node networkx graph carrying the
+   property is written under that format and read back -- usable = exact round trip, not usable = the write raises *)
+| IName (s : string).
 
 (* node dtype, ndims, (name, dtype, inner size) of the node / edge attributes *)
 Definition sgsig := (dtype * nat * list (string * (dtype * option nat)) * list (string * (dtype * option nat)))%type.
@@ -28,7 +32,8 @@ Inductive obs :=
 | OMem (g : mgraph)
 | ONx (g : cgraph)
 | ORx (g : rxc)
-| OSg (s : sgsig) (g : cgraph).
+| OSg (s : sgsig) (g : cgraph)
+| OName (v2 v3 : bool).
 
 Definition written (w : writer) (mdtok axtok : Z) : res mgraph :=
   match w with
@@ -80,6 +85,7 @@ Definition model (i : input) : obs :=
       | Err e => OErr e
       | Ok g => view r g
       end
+  | IName s => OName (Names.name_ok_fmt false s) (Names.name_ok_fmt true s)
   end.
 
 (* ---------- comparison: attribute dicts and node / edge maps are compared as dicts ---------- *)
@@ -111,13 +117,43 @@ Definition sgsig_eqb (a b : sgsig) : bool :=
       dtype_eqb nd nd' && Nat.eqb k k' && dict_eqb asig_eqb ns ns' && dict_eqb asig_eqb es es'
   end.
 
+(* ---------- networkx: the ORDER of graph.nodes and graph.edges is compared too (audit F8) ----------
+   The model's cgraph keeps nodes and edges in insertion order.  graph.nodes iterates in insertion order; graph.edges iterates by
+   adjacency: DiGraph -- for every node n in node order, its out-edges in the order they were added; Graph -- for every node n in
+   node order, the edges touching n in the order they were added, reported as (n, neighbour), skipping neighbours that are earlier
+   nodes (networkx EdgeView / OutEdgeView).  nx_edges_view computes that order from the insertion-ordered tables. *)
+Fixpoint nx_undirected_edges (edges : list ((Z * Z) * cattrs)) (nodes : list (Z * cattrs)) (seen : list Z) : list ((Z * Z) * cattrs) :=
+  match nodes with
+  | [] => []
+  | n :: r =>
+      let id := fst n in
+      flat_map (fun e => let u := fst (fst e) in let v := snd (fst e) in
+                         if Z.eqb u id then (if zmem v seen then [] else [((id, v), snd e)])
+                         else if Z.eqb v id then (if zmem u seen then [] else [((id, u), snd e)]) else []) edges
+      ++ nx_undirected_edges edges r (id :: seen)
+  end.
+Definition nx_edges_view (g : cgraph) : list ((Z * Z) * cattrs) :=
+  if cg_directed g
+  then flat_map (fun n => filter (fun e => Z.eqb (fst (fst e)) (fst n)) (cg_edges g)) (cg_nodes g)
+  else nx_undirected_edges (cg_edges g) (cg_nodes g) [].
+
+Definition otable_eqb {K} (eqb : K -> K -> bool) (a b : list (K * cattrs)) : bool :=
+  list_eqb (fun x y => eqb (fst x) (fst y) && cattrs_eqb (snd x) (snd y)) a b.
+
+(* a: the model's graph, b: the observed one (nodes as graph.nodes lists them, edges as graph.edges lists them) *)
+Definition nx_obs_eqb (a b : cgraph) : bool :=
+  Bool.eqb (cg_directed a) (cg_directed b)
+  && otable_eqb Z.eqb (cg_nodes a) (cg_nodes b)
+  && otable_eqb (fun x y => Z.eqb (fst x) (fst y) && Z.eqb (snd x) (snd y)) (nx_edges_view a) (cg_edges b).
+
 Definition obs_eqb (a b : obs) : bool :=
   match a, b with
   | OErr e, OErr f => exn_eqb e f
   | OMem g, OMem h => mgraph_eqb g h
-  | ONx g, ONx h => cgraph_eqb g h
+  | ONx g, ONx h => nx_obs_eqb g h
   | ORx g, ORx h => rxc_eqb g h
   | OSg s g, OSg t h => sgsig_eqb s t && cgraph_eqb g h
+  | OName a b, OName c d => Bool.eqb a c && Bool.eqb b d
   | _, _ => false
   end.
 
